@@ -45,6 +45,8 @@ def run(rep, kf, tier, seed):
     import contracts.pipeline as cpl
     import contracts.process_config as cpc
     engine_b.discharge(rep, kf, cpl.all_contracts() + [cpc.process_config_contract()], "C06", tier, seed)
+    import contracts.enum_convert as cec
+    engine_b.discharge(rep, kf, cec.all_contracts(), "C06", tier, seed)
     import contracts.closure as clo
     clo.macro_presence_obligations(rep, "C06")
     import contracts.containment as ct
